@@ -142,6 +142,14 @@ def run(ctx):
     else:
         asmcheck.run_suite(ctx, "branch-sweep", branch_cases(SHORT + LONG, near8 + [32765, 32767], near8 + [32763, 32766]))
         asmcheck.run_suite(ctx, "pcr-sweep", pcr_cases(["LDA", "LDY", "LEAX"], near8 + near16[10:26:3], rnd, inner=(0, 2)))
+    # bare numeric n,PCR / [n,PCR]: the displacement is n itself (TLC-exported table rows, boundary values x spellings, plus redraws)
+    stmts, wall = asmgen.table(ctx.tier, "valid")
+    pcr = [s for s in stmts if s["form"] == "pcr"]
+    cases = [asmcheck.framed(s, "pcr-numeric") for s in pcr[::1 if thorough else 3]]
+    for _ in range(20000 if thorough else 2500):
+        t, rk = asmgen.random_variant(rnd, rnd.choice(pcr))
+        cases.append(asmcheck.framed(t, "pcr-numeric-random", **rk))
+    asmcheck.run_suite(ctx, "pcr-numeric", cases)
     ctx.cov["rule"] = ("TLC-enumerated sizing programs (fillers around the 8-bit limit x label,PCR statements with any target) replayed with the sizing-loop "
                        "hooks validated step by step against AsmSizing!Step; distance sweeps for all 38 branch mnemonics and label,PCR / [label,PCR] / "
                        "label+-n,PCR forward and backward with 0-3 undecided PCR statements inside the span; bytes judged by the certificate "
